@@ -57,6 +57,18 @@ class _Writer:
         return False
 
 
+class _TextWriter(_Writer):
+    """the same for a file opened in text mode"""
+
+    def __init__(self, sched, path, encoding):
+        super().__init__(sched, path)
+        self.encoding = encoding
+
+    def write(self, text):
+        super().write(text.encode(self.encoding))
+        return len(text)
+
+
 class Sched:
     """one scheduler per scenario; threads register themselves through thread-local state"""
 
@@ -86,7 +98,7 @@ class Sched:
                 if "w" in mode or "a" in mode or "x" in mode or "+" in mode:
                     s.at("open-w", path)
                     if "b" not in mode:
-                        raise RuntimeError("unmodelled: text-mode write to the cache")
+                        return _TextWriter(s, path, k.get("encoding") or (a[1] if len(a) > 1 else None) or "utf-8")
                     return _Writer(s, path)
                 s.at("read", path)
             return o_open(file, mode, *a, **k)
